@@ -282,6 +282,8 @@ class RefRun:
             pre = d + '/'
             if self.fs.has_descendants(d) or any(q.startswith(pre) for q in self.inprog):
                 break
+            if self.st.cache.startswith(pre):
+                break       # the cache file will be written here: the directory stays
             del self.fs.t[d]
             self.created.discard(d)
             d = pp.dirname(d)
